@@ -71,6 +71,12 @@ def handler : Handler := fun op args =>
       let en' ← optOf pBytes; let ev ← optOf pBytes
       let r := getNameVersion en T w arr en' ev
       pure ("ok " ++ fmtOB r.1.1 ++ " " ++ fmtOB r.1.2 ++ fmtTail r.2.1 r.2.2)) args
+  | "nameverq" => run (do
+      -- what `get_terminal_name_version` leaves on the tty (ticks, unread), whatever it returns or raises
+      let en ← bool; let T ← nat; let w ← pStream; let arr ← pBursts
+      let en' ← optOf pBytes; let ev ← optOf pBytes
+      let r := getNameVersion en T w arr en' ev
+      pure ("ok" ++ fmtTail r.2.1 r.2.2)) args
   | "cellsize" => run (do
       let en ← bool; let T ← nat; let w ← pStream; let arr ← pBursts
       let cols ← nat; let rows ← nat
